@@ -36,6 +36,7 @@ def run(res, tier, rng, table_diffs=()):
     from .. import gen2
     srcs += gen2.big_code_programs()
     srcs += gen2.width_boundary_programs()
+    srcs += gen2.operand_height_programs()
     srcs += [("iife", p) for p in gen2.iife_programs()]
     srcs += [("tail-shapes", p) for p in gen2.tail_shape_programs()]
     # TYPE CONFUSION: a function value is the one kind of value `Call` trusts (entry offset, locals count). Arithmetic, comparison,
